@@ -379,3 +379,23 @@ func TestVerifFindingC19DumpVariablesBooleans(t *testing.T) {
 		t.Errorf("dump-variables prints %q, which the parser reads back as off; want \"set blink-matching-paren on\"", line)
 	}
 }
+
+// C06 ("on a character in Vi command mode unless the buffer or the current line is empty"): a line kept by
+// accept-and-hold (or brought back by the infer / operate-and-get-next commands) is put in the buffer by
+// history.Init with the cursor after its last character; the main keymap is not reset between calls, so in Vi
+// command mode the next call waited for input with the cursor past the end of a non-empty line.
+func TestVerifFindingC06HeldLineCursorInViCommandMode(t *testing.T) {
+	rl := NewShell()
+	rl.init()
+	rl.Keymap.SetMain("vi-command")
+	rl.line.Set([]rune("hello")...)
+	rl.cursor.Set(2)
+	rl.History.Accept(true, false, nil) // what accept-and-hold does
+	rl.init()                           // the next Readline call starts
+	if got := string(*rl.line); got != "hello" {
+		t.Fatalf("held line: %q", got)
+	}
+	if pos := rl.cursor.Pos(); pos != 4 {
+		t.Errorf("vi command mode, held line \"hello\": cursor at %d, want 4 (on the last character)", pos)
+	}
+}
